@@ -17,3 +17,35 @@ def register(reg):
             "result[2] == (-len(self.defaults) if self.defaults is not None else 0)",
         ],
     )
+
+    # ---- the integer converter: to_url and to_python are inverse on the converter's domain
+    IntC = reg.model("IntegerConverter", cls="werkzeug/routing/converters.py:IntegerConverter",
+                     fields={"fixed_digits": "int", "min": "Optional[int]", "max": "Optional[int]", "signed": "bool"})
+    reg.spec("in_range(self, n)", "(self.min is None or n >= self.min) and (self.max is None or n <= self.max)")
+    reg.contract(
+        "werkzeug/routing/converters.py:NumberConverter.to_url", prop=P, self_model=IntC, replay="method", params={"value": "int"}, returns="str",
+        modifies=[], assumes=["self.fixed_digits >= 0"],
+        ensures=[
+            # the text denotes the number, is a plain decimal literal, and is padded to the fixed width
+            "str_to_int(result) == value", "re_in(result, '-?[0-9]+')",
+            "implies(self.fixed_digits > 0, len(result) >= self.fixed_digits)",
+            "implies(self.fixed_digits > 0 and len(str(value)) <= self.fixed_digits, len(result) == self.fixed_digits)",
+            "implies(self.fixed_digits == 0, result == str(value))",
+        ],
+        raises={},
+    )
+    reg.contract(
+        "werkzeug/routing/converters.py:NumberConverter.to_python", prop=P, self_model=IntC, replay="method", params={"value": "str"}, returns="int",
+        modifies=[],
+        # what the rule's regex lets through: an optional minus sign and digits (not more than int() accepts)
+        assumes=["re_in(value, '-?[0-9]+')", "len(value) <= int_max_digits()"],
+        ensures=["result == str_to_int(value)", "in_range(self, result)",
+                 "self.fixed_digits == 0 or len(value) == self.fixed_digits"],
+        raises={"ValidationError": "(self.fixed_digits != 0 and len(value) != self.fixed_digits) or not in_range(self, str_to_int(value))"},
+    )
+    # the inverse law over the two contracts: matching what was built gives the value back (or the converter
+    # refuses it, exactly when it is outside the range / wider than the fixed width)
+    reg.lemma_spec(P, "int-converter-roundtrip", vars={"self": IntC, "v": "int", "u": "str"},
+                   assumes=["str_to_int(u) == v", "self.fixed_digits == 0 or len(u) == self.fixed_digits", "in_range(self, v)"],
+                   goals=["not ((self.fixed_digits != 0 and len(u) != self.fixed_digits) or not in_range(self, str_to_int(u)))",
+                          "str_to_int(u) == v"])
